@@ -290,6 +290,11 @@ func genAdminPlan(r *rand.Rand, tier string) *vfPlan {
 	add(vfStep{Op: "setup_u2f", User: "bob", Target: "tok2"})
 	add(vfStep{Op: "setup_totp", User: "bob"})
 	actors := []string{"alice", "bob", "mallory", "root", "gadmin", "autoadmin"}
+	if chance(r, 0.25) {
+		// without user name normalisation "Root" and "Gadmin" are accounts of their own (and no administrators)
+		p.Cfg.DisableNorm = true
+		actors = []string{"alice", "Root", "mallory", "root", "gadmin", "Gadmin"}
+	}
 	levels := []int{AuthTypePassword, AuthTypePassword | AuthTypeTOTP, AuthTypePassword | AuthTypeU2F, AuthTypeU2F, AuthTypePassword | AuthTypeSymantecVIP,
 		AuthTypePassword | AuthTypeOkta2FA, AuthTypePassword | AuthTypeBootstrapOTP, AuthTypeFederated | AuthTypeFIDO2, AuthTypePassword | AuthTypeTOTP | AuthTypeSymantecVIP | AuthTypeKeymasterX509, 0}
 	sess := []string{"x1", "x2", "x3", "x4"}
